@@ -572,6 +572,7 @@ class MatrixWorld:
             return
         X.POSITIVE_LEAVES |= {"q", "A"}
         I = Interp(self.f)
+        I.matrix_level = True       # the nilpotent series is summarised as a polynomial in the matrix N (see run_c15e)
         self.I = I
         try:
             res = I.run_fn(self.dec.path, [world.matrix("A", "n"), world.settings()])
@@ -800,111 +801,66 @@ def run_c15e(ctx, RID="C15-e"):
         Sn = sorted(snames)[0]
         want = (leaf(Sn, "b", "a") + Expr.const(1).guarded([("=", "a", "b")])) * leaf(Q, "a", "a").inv()
         compare(ctx, RID, "Q⁻¹[r,c] == (S[r,c] + [r=c])/q[c,c]  (S = `%s`, the series sum)" % Sn, qti, want, fn, "inverse-assembly", {"a": "n", "b": "n"}, ())
-        # N matrix: the first element pushed to the power list
-        nm = None
-        for env in I.block_envs:
-            for vid, val in env.vars.items():
-                if isinstance(val, Arr) and len(val.classes) == 2 and val.rules and not isinstance(val, models.ListV):
-                    nmn = I.var_names.get(vid)
-                    try:
-                        e_ = scalar_of(val.at("r", "c"), "entry")
-                    except Undecided:
-                        continue
-                    want_n = (leaf(Q, "r", "c") * leaf(Q, "r", "r").inv()).guarded([("<", "c", "r")])
-                    ok, _why = equal_modulo_order(e_, want_n, {"r": "n", "c": "n"}, set())
-                    if not ok:
-                        # rows start at 1 in the code (0 <= c < r makes r >= 1 anyway)
-                        ok, _why = equal_modulo_order(e_, want_n.guarded([("<=", 1, "r")]), {"r": "n", "c": "n"}, set())
-                    if ok:
-                        nm = nmn
-        ctx.ob(RID, "a local holds N[r,c] = [c<r]·q[r,c]/q[r,r] (strictly lower part of D⁻¹Q) — `%s`" % nm, nm is not None, fn, "n-matrix")
-        w.n_name = nm
+        # N: the matrix whose powers are taken (the base of the matrix-level polynomials)
+        base = I.mat_base
+        ok_n = False
+        if base is not None:
+            e_ = scalar_of(base.at("r", "c"), "entry")
+            want_n = (leaf(Q, "r", "c") * leaf(Q, "r", "r").inv()).guarded([("<", "c", "r")])
+            ok_n, _why = equal_modulo_order(e_, want_n, {"r": "n", "c": "n"}, set())
+            if not ok_n:
+                # rows start at 1 in the code (0 <= c < r makes r >= 1 anyway)
+                ok_n, _why = equal_modulo_order(e_, want_n.guarded([("<=", 1, "r")]), {"r": "n", "c": "n"}, set())
+        ctx.ob(RID, "the matrix whose powers are taken is N[r,c] = [c<r]·q[r,c]/q[r,r] (strictly lower part of D⁻¹Q)", ok_n, fn, "n-matrix",
+               detail="no matrix is multiplied with itself" if base is None else "entries of the multiplied matrix: %s" % scalar_of(base.at("r", "c"), "entry").key()[:300])
+        # the series: S as a polynomial in N, decided at matrix level (powers of one matrix commute; the operator impls used are verified below)
+        from ..kern.models import matpow
+        from ..kern.interp import _assume
+        poly = I.mat_defs.get(Sn)
+        lrs = list(I.list_recurrences)
+        nm1 = (Expr.symbol("n") - Expr.const(1)).simplified()
+        ok_len = len(lrs) == 1 and lrs[0]["length"].simplified() == nm1
+        ctx.ob(RID, "powers of N: the list starts with N and every iteration appends (previous power)·N — by induction element t is N^(t+1), "
+                    "t = 0..dim−2 (N¹..N^(dim−1); for dim = 1 the single element is the empty strictly-lower matrix)", ok_len, fn, "nilpotent-powers",
+               detail="closed forms found: %s" % [(r_["var"], r_["length"].key()) for r_ in lrs])
+        ok_s, det = False, "the series sum `%s` is not a polynomial in N" % Sn
+        if poly is not None:
+            ts = poly.simplified().terms
+            det = "S = %s" % poly.key()[:400]
+            if len(ts) == 1 and ts[0].coeff == 1 and len(ts[0].binders) == 1 and not [g for g in ts[0].guards if g != ("true",)]:
+                t_, tcls = ts[0].binders[0]
+                bodyx = Expr([ts[0].drop_binder(t_)])
+                key = "even(«%s»)" % t_
+                ev, od = _assume(bodyx, key, True), _assume(bodyx, key, False)
+                term = matpow(Expr.leaf("$ix", t_) + Expr.const(1))
+                size = I.derived_sizes.get(tcls)
+                ok_s = (ev == -term and od == term and size is not None and size.simplified() == nm1)
+                det += "; even t: %s, odd t: %s, t < %s" % (ev.key()[:120], od.key()[:120], size.key() if size is not None else tcls)
+        ctx.ob(RID, "series sum: S = Σ_{t=0}^{dim−2} (−1)^(t+1)·N^(t+1) = Σ_{s=1}^{dim−1} (−N)^s, starting from the zero matrix", ok_s, fn, "alternating-series", detail=det)
+        for opath in sorted(I.mat_ops_used):
+            verify_matrix_op(ctx, RID, opath)
+        w.n_name = None
         w.s_name = Sn
     guarded_clause(ctx, RID, fn, "n-matrix", nmat)
 
-    # series shape on MIR
-    body = w.dec
-    v = Vals(body)
+
+def verify_matrix_op(ctx, RID, path):
+    """An operator impl on matrices that the series summary used at matrix level means what its symbol says, entry by entry."""
     f = ctx.facts
-    from . import common
-    pushes = [(bi, t) for bi, t in body.calls() if t.get("callee", {}).get("name") == "push" and "SquareMatrix" in (t["callee"].get("impl_self") or "") + str(t["callee"].get("gargs"))]
-    lps = cfg.loops(body)
-    in_loop = [(bi, t) for bi, t in pushes if any(bi in bl for _h, bl in lps)]
-    out_loop = [(bi, t) for bi, t in pushes if (bi, t) not in in_loop]
-    ok_shape = len(in_loop) == 1 and len(out_loop) == 1
-    det = "%d pushes of matrices inside loops, %d outside" % (len(in_loop), len(out_loop))
-    if ok_shape:
-        bi, t = in_loop[0]
-        pr = v.root(t["args"][1])
-        mt = v.call_term(pr)
-        mul_ok = mt is not None and callee_is(mt, trait="Mul", name="mul")
-        la = fa = None
-        if mul_ok:
-            def through_unwrap(r):
-                tt = v.call_term(r)
-                for _ in range(4):
-                    if tt is not None and tt["callee"].get("name") in ("unwrap_or_else", "unwrap", "expect"):
-                        r2 = v.root(tt["args"][0])
-                        tt = v.call_term(r2)
-                        continue
-                    break
-                return tt
-            l0 = through_unwrap(v.root(mt["args"][0]))
-            l1 = through_unwrap(v.root(mt["args"][1]))
-            la = l0["callee"].get("name") if l0 else None
-            fa = l1["callee"].get("name") if l1 else None
-        ok_shape = mul_ok and {la, fa} == {"last", "first"}
-        det += "; pushed value = Mul(%s(), %s())" % (la, fa)
-        # loop range: 1 .. dim-1
-        heads = [h for h in common.loop_next_sites(body, v) if any(bi in bl and h[0] in bl for _h, bl in lps)]
-        rng_ok = False
-        for h in heads:
-            itr = v.root(h[4]["args"][0])
-            for d_ in v.defs.get(itr.base[1], []) if itr.kind == "local" else []:
-                if d_[0] == "stmt" and d_[3]["k"] == "use":
-                    t2 = v.call_term(v.root(d_[3]["op"]))
-                    if t2 is not None and callee_is(t2, trait="IntoIterator", name="into_iter"):
-                        r3 = v.root(t2["args"][0])
-                        rv = v.rvalue_of(r3) if r3.kind == "local" else None
-                        if rv is not None and rv["k"] == "aggregate" and "end" in rv.get("fields", []):
-                            st_, en_ = rv["ops"][rv["fields"].index("start")], rv["ops"][rv["fields"].index("end")]
-                            er = v.root(en_)
-                            # end = dim - 1 (checked subtraction of the matrix dimension by one)
-                            dv = None
-                            if er.kind == "local":
-                                ev_ = v.rvalue_of(Root_strip(er)) if False else None
-                            src = er
-                            if src.kind == "local" and src.path[-1:] == ("0",):
-                                dd = v.single_def(src.base[1])
-                                if dd and dd[0] == "stmt" and dd[3]["k"] == "binop" and dd[3]["op"] in ("SubWithOverflow", "Sub"):
-                                    a_, b_ = dd[3]["a"], dd[3]["b"]
-                                    ra = v.root(a_)
-                                    dv = (ra.path[-1:] == ("dim",) and b_["k"] == "const" and b_.get("int") == "1")
-                            rng_ok = bool(dv) and st_["k"] == "const" and st_.get("int") == "1"
-        ok_shape = ok_shape and rng_ok
-        det += "; loop range 1..dim-1: %s" % rng_ok
-    ctx.ob(RID, "powers of N: list starts with N, then `last·first` is pushed for t in 1..dim−1 (N¹..N^(dim−1))", ok_shape, fn, "nilpotent-powers", detail=det)
-    # alternating fold: closure with i % 2 == 0 -> acc - mat, else acc + mat
-    alt_ok = False
-    det2 = "no fold closure with a parity test found"
-    for cb in f.closures_of(body.path):
-        vc = Vals(cb)
-        subs = [(bi, t) for bi, t in cb.calls() if callee_is(t, trait="Sub", name="sub")]
-        adds = [(bi, t) for bi, t in cb.calls() if callee_is(t, trait="Add", name="add")]
-        if len(subs) == 1 and len(adds) == 1:
-            sw = [bi for bi, b in enumerate(cb.blocks) if b["term"]["k"] == "switch" and not b["cleanup"]]
-            for sb in sw:
-                c = vc.classify_bool(cb.blocks[sb]["term"]["discr"])
-                if c and c[0] == "binop" and c[1]["op"] == "Eq":
-                    lhs = vc.root(c[1]["a"])
-                    rv = vc.rvalue_of(lhs) if lhs.kind == "local" else None
-                    zero = c[1]["b"]["k"] == "const" and c[1]["b"].get("int") == "0"
-                    is_mod2 = rv is not None and rv["k"] == "binop" and rv["op"] == "Rem" and rv["b"]["k"] == "const" and rv["b"].get("int") == "2"
-                    te, fe = bool_edges(cb, sb)
-                    sub_on_even = subs[0][0] in cb.reachable_from(te, avoid=frozenset([fe])) and adds[0][0] in cb.reachable_from(fe, avoid=frozenset([te]))
-                    alt_ok = bool(zero and is_mod2 and sub_on_even)
-                    det2 = "parity test %s, Sub on even index %s" % (is_mod2 and zero, sub_on_even)
-    ctx.ob(RID, "series sum: fold over the powers with −N^(t+1) for even t and + for odd t, starting from zero", alt_ok, fn, "alternating-series", detail=det2)
+    fi = f.fns.get(path) or {}
+    name = fi.get("name")
+    I = Interp(f)
+    res = I.run_fn(path, [world.matrix("A", "n"), world.matrix("B", "n")])
+    got = scalar_of(res.at("r", "c"), "entry")
+    if name == "mul":
+        k = fresh("k")
+        want = ssum(leaf("A", "r", k) * leaf("B", k, "c"), k, "n")
+    elif name == "add":
+        want = leaf("A", "r", "c") + leaf("B", "r", "c")
+    else:
+        want = leaf("A", "r", "c") - leaf("B", "r", "c")
+    compare(ctx, RID, "operator used by the series: (A %s B)[r,c] is the matrix %s" % ({"mul": "·", "add": "+", "sub": "−"}.get(name, name), {"mul": "product"}.get(name, "sum / difference")),
+            got, want, path, "matrix-op:%s" % name, {"r": "n", "c": "n"}, symmetric=())
 
 
 def Root_strip(r):
